@@ -296,7 +296,7 @@ pub fn run_case(env: &Env, case: &Case) -> CaseResult {
         let (expected, must, info) = match predict(&tree, &rop) {
             Pred::Skip(why) => {
                 rep.class("op-skipped");
-                let _ = why;
+                rep.class(why);
                 continue;
             }
             Pred::Run { expected, must, info } => (expected, must, info),
@@ -356,6 +356,25 @@ pub fn run_case(env: &Env, case: &Case) -> CaseResult {
                     rep.class_if(info.removed_entries == 0, "removed-empty-dir");
                 }
             }
+            ROp::Rename { .. } => {
+                if must {
+                    rep.class_if(tree.kind(&info.canon) == Kind::Dir, "rename-directory");
+                    rep.class_if(tree.kind(&info.canon) == Kind::Dir && tree.has_children(&info.canon), "rename-non-empty-directory");
+                    rep.class_if(tree.kind(&info.canon) == Kind::Symlink, "rename-symlink");
+                    rep.class_if(info.kind == Some(Kind::Absent), "rename-to-new-name");
+                    rep.class_if(!matches!(info.kind, Some(Kind::Absent) | None) && info.canon != info.canon2, "rename-replaces");
+                }
+            }
+            ROp::RemoveFile { .. } => {
+                if must {
+                    rep.class("remove_file");
+                    rep.class_if(info.kind == Some(Kind::Symlink), "remove_file-symlink");
+                    rep.class_if(info.kind == Some(Kind::Fifo), "remove_file-fifo");
+                }
+            }
+            ROp::RemoveDir { .. } => rep.class_if(must, "remove_dir"),
+            ROp::CreateDir { .. } => rep.class_if(must, "create_dir"),
+            ROp::Metadata { .. } => rep.class_if(must, "metadata-existing"),
             ROp::Write { .. } => {
                 if must {
                     rep.class_if(info.old_dst_len.is_none(), "write-creates");
@@ -468,6 +487,8 @@ pub fn run_case(env: &Env, case: &Case) -> CaseResult {
                         // preconditions not established by the model: only what the statement
                         // says about every successful call, observed directly through std
                         match &rop {
+                            // (std cannot be handed a path of PATH_MAX bytes or more)
+                            ROp::CreateDirAll { p } | ROp::Write { p, .. } if p.len() >= crate::check::model::PATH_MAX => {}
                             ROp::CreateDirAll { p } => {
                                 if !std::fs::metadata(path_of(p)).map(|m| m.is_dir()).unwrap_or(false) {
                                     let shape = if info.bad_prefix { "non-directory in prefix" } else { "unpredicted state" };
